@@ -194,6 +194,26 @@ fn parse_struct_internal(
                         return Err(TyperError::IllegalVariableName(name.get_location()));
                     }
 
+                    // The struct is not complete inside its own definition so it can not contain itself
+                    {
+                        let mut inner_id = type_id;
+                        loop {
+                            inner_id = context.module.type_registry.remove_modifier(inner_id);
+                            match context.module.type_registry.get_type_layer(inner_id) {
+                                ir::TypeLayer::Array(element_id, _) => inner_id = element_id,
+                                _ => break,
+                            }
+                        }
+                        if context.module.type_registry.get_type_layer(inner_id)
+                            == ir::TypeLayer::Struct(id)
+                        {
+                            return Err(TyperError::VariableHasIncompleteType(
+                                type_id,
+                                name.location,
+                            ));
+                        }
+                    }
+
                     let mut semantic = None;
                     for location_annotation in &def.location_annotations {
                         match location_annotation {
